@@ -273,3 +273,7 @@ def main(ctx, t0):
     step, phase = grid(ctx)
     extra = {"exhaustive": True, "grid_step": step, "grid_phase": phase, "t_values": len(T_values())}
     return core.finish(PID, ctx, LEVEL, acc, RULE, extra, ASSUMPTIONS, t0)
+
+
+def replay_unit(unit, ctx):
+    return run_unit(unit, ctx)
